@@ -2,7 +2,8 @@
    semantics.  Property theorems only. *)
 From Coq Require Import List ZArith NArith Bool.
 From WF Require Import Base.Bytes Sem.RangeSet Lang.Types Lang.Ast Lang.Context
-     Sem.Compile Spec.Denote Spec.Typing Proofs.ScalarProofs Parse.Climb.
+     Sem.Compile Spec.Denote Spec.Typing Proofs.ScalarProofs Parse.Climb
+     Parse.Lex Parse.Parser Spec.Grammar Proofs.ClimbText Proofs.GrammarProofs Proofs.CallProofs Proofs.FullProofs Proofs.ParserClosed.
 Import ListNotations.
 
 (* Compiling and executing a scalar filter (comparisons of Int / Bytes / Ip /
@@ -29,9 +30,39 @@ Proof. exact ip_op_spec. Qed.
 (* Binding strength: the precedence-climbing loop with look-ahead builds the
    stratified tree (or-list of xor-lists of and-lists, same-operator runs
    flattened) for chains of any length and operator mix. *)
-Theorem C01_climb_is_stratified : forall x : orl,
+Theorem C01_climb_is_stratified : forall (A : Type) (x : @orl A),
   simple_orl x -> More (first_or x) None (rest_or x) (build_or x, []).
-Proof. exact climb_is_stratified. Qed.
+Proof. exact (@climb_is_stratified). Qed.
+
+(* The parser model's climbing functions refine that loop: on a text that reads as a chain of simple
+   expressions and operators, lex_more / lex_inner (the mirror of lex_more_with_precedence) return what
+   More / Inner return (LFuel apart).  ChainRep: Proofs/ClimbText.v. *)
+Theorem C01_parser_climb_refines_loop : forall sch st d cls,
+  (forall a b, cls a = true -> cls b = true -> types_combinable a b = true) ->
+  (forall lhs minp c res, More lhs minp c res -> P_more sch st d cls lhs minp c res) /\
+  (forall rhs o c res, Inner rhs o c res -> P_inner sch st d cls rhs o c res).
+Proof. exact climb_sim. Qed.
+
+(* Text level: every text of the surface grammar (Spec/Grammar.v: comparisons of a field with a literal in
+   any literal form, bare boolean fields, not / ! , parentheses, and / xor / or in either spelling, any
+   white-space layout) is parsed to the AST the grammar assigns to it - binding strength not > and > xor >
+   or - and executing that AST on any well-formed context gives its denotation. *)
+Theorem C01_text_level : forall sch st text e c,
+  GFilter sch st text e -> ctx_ok sch c = true -> fns_ok sch ->
+  parse_filter sch st text = LOk e [] /\
+  exists b, run_filter sch e c = Some b /\ denote_filter sch e c = Some b.
+Proof.
+  intros sch st text e c HG Hc Hf. pose proof (filter_grammar_parses sch st text e HG) as Hp.
+  split; [exact Hp|]. apply filter_exec_is_denote; [|assumption|assumption].
+  pose proof (parse_filter_post sch st text) as P. rewrite Hp in P. exact (proj1 (proj1 P)).
+Qed.
+
+(* the grammar is inhabited: a mixed filter with both spellings, a dotted name, a line break *)
+Example C01_text_level_instance :
+  GFilter gex_sch default_settings gex_text (interp (build_or gex_x)) /\
+  parse_filter gex_sch default_settings gex_text =
+    LOk (ECombining LOr (LCons (ECombining LAnd (LCons gex_a1 (LCons gex_a2 LNil))) (LCons gex_a3 LNil))) [].
+Proof. split; [exact gex_in_grammar|exact gex_parses]. Qed.
 
 (* Non-vacuity: a concrete mixed filter over a concrete context. *)
 Definition ex_scheme : scheme :=
@@ -51,4 +82,8 @@ Proof. vm_compute. repeat split. Qed.
 
 Check C01_exec_is_denote : forall (sch : scheme) (e : lexpr) (c : ctx),
   scalar sch e = true -> ctx_ok sch c = true ->
+  exists b, run_filter sch e c = Some b /\ denote_filter sch e c = Some b.
+Check C01_text_level : forall sch st text e c,
+  GFilter sch st text e -> ctx_ok sch c = true -> fns_ok sch ->
+  parse_filter sch st text = LOk e [] /\
   exists b, run_filter sch e c = Some b /\ denote_filter sch e c = Some b.
